@@ -14,6 +14,23 @@ The same three legs run for enumerator initialisers (front/enumred.c, model Arit
 `enum E { k = <expr> }` read back as an int vs the same expression over int variables
 (keys `enumred-differs:<op>:<types>`, `<op>:int_min/-1:enumred`,
 `div0-rejected-but-not-evaluated:<op>:enumred`).
+Two further families widen the quantifier of leg 3 (gen/arithforms.py):
+  operand forms  every operator x type pair with ONE literal operand while the other operand is
+                 a variable, a call that prints (`ni(0, v)`: non-constant, observable), an
+                 expression that faults when evaluated (`(10 / zi)`), or the same operand
+                 repeated (`x - x`); also ?: with effectful condition / branches.  The literal is
+                 replaced by a variable holding the same value and the whole OUTCOME (tags
+                 printed + result + exception) is compared: a one-sided rewrite (x && false,
+                 x * 0, x - x ...) that drops an evaluation shows up here
+                 (key `effect-differs:<op>:<types>:<forms>`); the variable version is also
+                 compared with the expected trace/value (Never's evaluation order + pyref).
+  enumdecl       sets of enum declarations mixing plain, valued and record-style enumerators,
+                 default numbering, backward AND forward references (also across enums), every
+                 int operator; every enumerator is read back (held in a variable; written as
+                 `E::I + 0`) next to its initialiser evaluated by the VM on int variables
+                 (key `enumdecl-differs:<root op>:<how it refers>`), and the extracted
+                 Arith/EnumIndex.decl_indices (theorems of Properties_C10b.v) runs against the
+                 real compiler on the same sets (correspondence `enumred-vs-decl_indices`).
 A leg-3 difference is a VIOLATION (shrunk to the smallest failing subtree; key
 `fold-differs:<op>:<types>`, `emit-abort:<op>:<types>`, `div0-rejected-but-not-evaluated:<op>`,
 `<op>:<int|long|enum>_min/-1:constred`); a leg-1/leg-2 difference is a broken correspondence.
@@ -29,6 +46,7 @@ from lib import common
 from gen import arithlib as al
 from gen import arithcases as ac
 from gen import aritheval as ae
+from gen import arithforms as af
 from gen import gen_convtables
 
 NUMK = ["i", "l", "f", "d"]
@@ -128,6 +146,239 @@ def key_of(prefix, tree):
     if prefix == "div0-rejected-but-not-evaluated":
         return prefix + ":" + rk.split(":")[0]
     return "%s:%s" % (prefix, rk)
+
+
+def build_form_cases(ctx, per_cell):
+    """one-operator trees with one LITERAL operand and the other operand variable / printing
+    call / faulting expression / repeated; ?: with effectful parts"""
+    rng = ctx.rng
+    out = collections.OrderedDict()
+
+    def add(tree, forms):
+        out["f%05d" % len(out)] = (tree, tuple(forms))
+
+    for obj in load_corpus():                  # the corpus always runs first
+        if obj.get("kind") == "form":
+            add(totuple(obj["tree"]), obj["forms"])
+
+    def val(kind, special):
+        if special and rng.random() < 0.65:
+            return rng.choice(af.SPECIAL[kind])
+        return ac.pick_value(rng, kind)
+
+    for op in ac.BINSYM:
+        pairs = [p for p in ac.admitted_pairs(op) if "e" not in p]
+        boost = 6 if op in ("and", "or") else 1
+        for (ka, kb) in pairs:
+            for side in (0, 1):
+                for other in ("call", "fault", "var"):
+                    for k in range(per_cell * boost if other != "var" else max(1, per_cell // 2) * boost):
+                        kinds = (ka, kb)
+                        vals = [val(kinds[0], side == 0), val(kinds[1], side == 1)]
+                        if op in ("shl", "shr") and rng.random() < 0.8:
+                            vals[1] = rng.choice([0, 1, 2, 31] + ([33, 63] if "l" in kinds else []))
+                        if k == 0:
+                            vals[side] = af.SPECIAL[kinds[side]][0]       # 0 / false / 0.0
+                        elif k == 1:
+                            vals[side] = af.SPECIAL[kinds[side]][1]       # 1 / true / 1.0
+                        tree = ("B", op, ac.atom(ac.value_tree(ka, vals[0])), ac.atom(ac.value_tree(kb, vals[1])))
+                        forms = [other, other]
+                        forms[side] = "lit"
+                        add(tree, forms)
+            if ka == kb:
+                # x OP x: the same operand text twice (x - x, x ^^^ x, x == x, x / x ...)
+                for first in ("call", "var", "lit"):
+                    for k in range(max(1, per_cell // 2) * boost):
+                        a = ac.atom(ac.value_tree(ka, val(ka, True)))
+                        add(("B", op, a, a), (first, "same"))
+    # ?: : literal condition with effectful branches, effectful condition with literal branches
+    shapes = [("lit", "call", "call"), ("lit", "fault", "call"), ("lit", "call", "fault"),
+              ("call", "lit", "lit"), ("fault", "lit", "lit"), ("call", "lit", "call"),
+              ("call", "call", "lit"), ("var", "lit", "fault"), ("var", "fault", "lit"), ("lit", "var", "fault")]
+    for kind in ["b", "i", "l", "f", "d"]:
+        for forms in shapes:
+            for k in range(per_cell):
+                c = ("L", "b", k % 2)
+                a = ac.atom(ac.value_tree(kind, val(kind, True)))
+                b = ac.atom(ac.value_tree(kind, val(kind, True)))
+                add(("C", c, a, b), forms)
+    return out
+
+
+def enumdecl_family(ctx, Tp, Ta, work, n_sets, counts, nontrivial, viol_seen):
+    """generated sets of enum declarations: extracted Arith/EnumIndex.decl_indices vs the real
+    compiler (tie), and every enumerator read back vs its initialiser evaluated by the VM on
+    variables (the property's own oracle)"""
+    rng = ctx.rng
+    sets = []
+    for obj in load_corpus():
+        if obj.get("kind") == "enumdecl":
+            sets.append(totuple(obj["set"]))
+    sets += [af.gen_enum_set(rng, allow_bad=(i % 8 == 7)) for i in range(n_sets)]
+    ids = ["x%05d" % i for i in range(len(sets))]
+    mo = ae.run_model(["X %s %s" % (i, af.enum_set_sx(es)) for i, es in zip(ids, sets)])
+    progs = [(i, "", af.enum_set_program(es)) for i, es in zip(ids, sets)]
+    rr = al.run_batch(Tp["nevrun"], progs, work, "c10-enumdecl")
+    rr_asan = al.run_batch(Ta["nevrun"], [pr for j, pr in enumerate(progs) if j % 6 == 0], work, "c10a-enumdecl")
+    dist = collections.Counter()
+    failing = []
+    why_msg = {"CYCLIC": "cyclic reference detected", "DIVZERO": "division by zero",
+               "NOTINT": "could not reduce", "UNKNOWN": "error"}
+    for i, es, (_, _, src) in zip(ids, sets, progs):
+        counts["evaluations"] += 1
+        counts["enumdecl-sets"] += 1
+        m = af.parse_model_idx(mo.get(i))
+        rec = rr.get(i)
+        out = ae.canon_real(al.classify_run(rec))
+        got = af.parse_enum_run(rec)
+        case = {"program": src, "declarations": af.enum_decl_text(es), "model": m, "outcome": out}
+        if m is None:
+            ctx.correspondence_broken("model-driver", {"case": af.enum_set_sx(es)})
+            continue
+        verdict_name = "accepted-set" if m[0] == "ok" else "duplicate" if m[0] == "dup" else m[3].lower()
+        ra = ae.canon_real(al.classify_run(rr_asan.get(i))) if i in rr_asan else None
+        if out[0] == "crash" or (ra is not None and ra[0] == "crash"):
+            # the compiler (or the VM) dies on a set of declarations
+            k2 = "enumdecl-crash:%s" % verdict_name
+            viol_seen[k2] = viol_seen.get(k2, 0) + 1
+            if viol_seen[k2] == 1:
+                ctx.violation(k2, "the compiler crashes on a set of enum declarations (the index model says: %s): %s"
+                              % (verdict_name, af.enum_decl_text(es).replace("\n", " ")),
+                              dict(case, asan=ra, output=(rec or {}).get("lines", [])[:6],
+                                   asan_output=((rr_asan.get(i) or {}).get("lines", [])[:12] if i in rr_asan else None)))
+            continue
+        if ra is not None and (ra != out or af.parse_enum_run(rr_asan.get(i)) != got):
+            k2 = "sanitizer-differs:enumdecl"
+            viol_seen[k2] = viol_seen.get(k2, 0) + 1
+            if viol_seen[k2] == 1:
+                ctx.violation(k2, "ASan/UBSan build behaves differently from the plain build on an enum declaration set",
+                              dict(case, asan=ra))
+        for en, items in enumerate(es):
+            for pos, it in enumerate(items):
+                body = af.body_of(es, en, pos)
+                refs = af.ix_refs(body)
+                if it[0] == "v":
+                    for o in set(af.ops_of(body)) or {af.root_op(body)}:
+                        for r in refs or [None]:
+                            dist["%s:%s" % (o, af.ref_class(es, (en, pos), r) if r else "no-reference")] += 1
+                else:
+                    dist["default-numbering:%s" % {"p": "plain", "r": "record"}[it[0]]] += 1
+        # ---- tie: the extracted model against the real compiler
+        if m[0] == "ok":
+            want = {(en, pos): v for en, l in enumerate(m[1]) for pos, v in enumerate(l)}
+            if out[0] == "compile_error":
+                ctx.correspondence_broken("enumred-vs-decl_indices", dict(case, note="the model assigns indices, the compiler rejects the set",
+                                                                           messages=(rec or {}).get("lines", [])[:4]))
+            elif any(k not in got or got[k][0] != v for k, v in want.items()):
+                ctx.correspondence_broken("enumred-vs-decl_indices", dict(case, model_indices=m[1], read_back={str(k): v for k, v in got.items()}))
+            else:
+                counts["enumdecl-model=compiler"] += 1
+        else:
+            nontrivial.add(("enumdecl-rejected", m[0], m[-1] if m[0] == "bad" else "dup"))
+            txt = "\n".join((rec or {}).get("lines", []))
+            expect_msg = "with same value as" if m[0] == "dup" else why_msg.get(m[3], "error")
+            if out[0] != "compile_error" or expect_msg not in txt:
+                ctx.correspondence_broken("enumred-vs-decl_indices", dict(case, note="the model rejects the set (%s)" % (m,),
+                                                                           messages=txt[:400]))
+            else:
+                counts["enumdecl-model=compiler"] += 1
+                counts["enumdecl-rejected-sets"] += 1
+        # ---- the property's own oracle: compile-time index vs the VM's computation
+        if out[0] == "compile_error":
+            continue
+        if out[0] != "val":
+            k2 = "enumdecl-run-fails:%s" % out[0]
+            viol_seen[k2] = viol_seen.get(k2, 0) + 1
+            if viol_seen[k2] == 1:
+                ctx.violation(k2, "a program that only reads its enumerators back does not run to the end", case)
+            continue
+        for en, items in enumerate(es):
+            for pos, it in enumerate(items):
+                k = (en, pos)
+                if k not in got:
+                    ctx.correspondence_broken("enumdecl-readout", dict(case, missing=str(k)))
+                    continue
+                read, folded, vm = got[k]
+                counts["enumdecl-enumerators"] += 1
+                body = af.body_of(es, en, pos)
+                refs = af.ix_refs(body)
+                how = "+".join(sorted({af.ref_class(es, k, r) for r in refs})) or "no-reference"
+                nontrivial.add(("enumdecl", af.root_op(body), how))
+                if read != vm:
+                    failing.append((es, k, got, case, m))
+                elif folded is not None and folded != read:
+                    k2 = "enumdecl-fold-differs:%s" % {"p": "plain", "v": "valued"}[it[0]]
+                    viol_seen[k2] = viol_seen.get(k2, 0) + 1
+                    if viol_seen[k2] == 1:
+                        ctx.violation(k2, "enumerator %s: `E::I + 0` reduced by the compiler (%d) differs from the enumerator "
+                                      "held in a variable (%d)" % (af.item_name(en, pos), folded, read), case)
+                else:
+                    counts["leg3-agree"] += 1
+    # ---- which part of a failing initialiser is responsible?  Variants of the set in which the
+    # references of the failing enumerator are replaced by literals (the values read back):
+    # all of them (-> an operator of the initialiser is at fault) / all but one (-> that reference)
+    variants, vmeta = [], []
+    for fi, (es, k, got, case, m) in enumerate(failing[:30]):
+        body = af.body_of(es, *k)
+        if es[k[0]][k[1]][0] != "v":
+            continue
+        refs = sorted(set(af.ix_refs(body)))
+        for keep in [None] + refs:
+            env = {r: got[r][0] for r in refs if r in got}
+            if len(env) != len(refs):
+                break
+
+            def leaf(v):
+                return ("L", "i", v)
+            nb = af.ix_subst_except(body, env, keep)
+            es2 = [list(items) for items in es]
+            es2[k[0]][k[1]] = ("v", nb)
+            variants.append(("y%03d_%02d" % (fi, len(variants)), "", af.enum_set_program(es2)))
+            vmeta.append((fi, keep, es2))
+    vrr = al.run_batch(Tp["nevrun"], variants, work, "c10-enumdecl-shrink") if variants else {}
+    verdict = {}
+    for (vid, _, vsrc), (fi, keep, es2) in zip(variants, vmeta):
+        k = failing[fi][1]
+        g = af.parse_enum_run(vrr.get(vid)).get(k)
+        if g is not None and g[0] != g[2]:
+            verdict.setdefault(fi, []).append((keep, es2, vsrc, g))
+    for fi, (es, k, got, case, m) in enumerate(failing):
+        read, folded, vm = got[k]
+        body = af.body_of(es, *k)
+        refs = af.ix_refs(body)
+        how = "+".join(sorted({af.ref_class(es, k, r) for r in refs})) or "no-reference"
+        v = verdict.get(fi, [])
+        small = None
+        if es[k[0]][k[1]][0] != "v":
+            k2 = "enumdecl-differs:default:%s" % how
+        elif any(keep is None for keep, _, _, _ in v):
+            k2 = "enumdecl-differs:op:%s" % af.root_op(body)
+            small = [x for x in v if x[0] is None][0]
+        elif v:
+            k2 = "enumdecl-differs:ref:%s" % "+".join(sorted({af.ref_class(es, k, keep) for keep, _, _, _ in v}))
+            small = v[0]
+        else:
+            k2 = "enumdecl-differs:ref:%s" % how
+        viol_seen[k2] = viol_seen.get(k2, 0) + 1
+        if viol_seen[k2] > 1:
+            continue
+        obj = dict(case, enumerator=af.item_name(*k), compile_time=read, run_time=vm, refers=how,
+                   model_index=(m[1][k[0]][k[1]] if m[0] == "ok" else None))
+        if small is not None:
+            obj.update({"found_in": case["program"], "program": small[2], "declarations": af.enum_decl_text(small[1]),
+                        "compile_time": small[3][0], "run_time": small[3][2]})
+        ctx.violation(k2, "enumerator %s = %s: the index computed by the compiler (%d) differs from its initialiser "
+                      "evaluated by the VM on variables holding the referenced enumerators (%d)"
+                      % (af.item_name(*k), af.ix_text(small[1][k[0]][k[1]][1] if small else body, lambda r: af.item_name(*r),
+                                                      lambda i, val: al.lit_int(val)),
+                         obj["compile_time"], obj["run_time"]), obj)
+    table = collections.OrderedDict()
+    for key, n in sorted(dist.items()):
+        o, _, how = key.partition(":")
+        table.setdefault(o, []).append("%s:%d" % (how, n))
+    return {"sets": len(sets), "enumerators": counts["enumdecl-enumerators"],
+            "initialiser operator -> how it refers (direction-kind of the target enumerator):count":
+                {o: " ".join(v) for o, v in table.items()}}
 
 
 def run(ctx):
@@ -398,15 +649,110 @@ def run(ctx):
                        "enumerator_outcome": r2["enum"], "variable_outcome": r2["var"],
                        "model": {"efold": r2["model"]["fold"], "rt_eval": r2["model"]["rt"]}})
 
+    # ---- operand forms: a literal operand next to a non-constant / effectful / faulting one ---
+    formdist = collections.Counter()
+    for cid, tree in cases.items():
+        if cid[0] in "bu" and res[cid].get("model") and res[cid]["model"]["ty"] is not None:
+            formdist[(ae.root_key(tree), "lit-lit" if cid[0] == "b" else "lit")] += 1
+    fcases = build_form_cases(ctx, 4 if quick else 12)
+    mo = ae.run_model(["E %s %s" % (fid, ac.sx(fc[0])) for fid, fc in fcases.items()])
+    fprogs, fmeta = [], collections.OrderedDict()
+    for fid, (tree, forms) in fcases.items():
+        m = ae.parse_model_E(mo[fid]) if fid in mo else None
+        if not m or m["ty"] in (None, "enum"):
+            counts["rejected-by-model-typechecker"] += 1
+            continue
+        vforms = af.var_version(forms)
+        lsrc, vsrc = af.form_program(tree, forms, m["ty"]), af.form_program(tree, vforms, m["ty"])
+        fprogs.append((fid + ".l", "", lsrc))
+        fprogs.append((fid + ".v", "", vsrc))
+        fmeta[fid] = (tree, forms, vforms, lsrc, vsrc)
+    frr = al.run_batch(Tp["nevrun"], fprogs, work, "c10-forms")
+    fsample = [pr for i, pr in enumerate(fprogs) if (i // 2) % (12 if quick else 6) == 0]
+    frr_asan = al.run_batch(Ta["nevrun"], fsample, work, "c10a-forms")
+    for fid, (tree, forms, vforms, lsrc, vsrc) in fmeta.items():
+        key = ae.root_key(tree)
+        fname = af.form_name(forms)
+        formdist[(key, fname)] += 1
+        counts["evaluations"] += 1
+        counts["operand-form-cases"] += 1
+        exp_tags, exp_out = af.reference(tree, vforms)
+        if exp_out[0] == "undef":
+            counts["excluded-C-UB"] += 1
+            continue
+        lit = (af.trace_of(frr.get(fid + ".l")), ae.canon_real(al.classify_run(frr.get(fid + ".l"))))
+        var = (af.trace_of(frr.get(fid + ".v")), ae.canon_real(al.classify_run(frr.get(fid + ".v"))))
+        case = {"tree": ac.sx(tree), "operand_forms": fname, "literal_program": lsrc, "variable_program": vsrc,
+                "literal_outcome": lit, "variable_outcome": var, "expected": (exp_tags, exp_out)}
+        nontrivial.add(("forms", key, fname, var[1][0], len(var[0])))
+        for suffix, got in ((".l", lit), (".v", var)):
+            if fid + suffix in frr_asan:
+                rec = frr_asan.get(fid + suffix)
+                ra = (af.trace_of(rec), ae.canon_real(al.classify_run(rec)))
+                if ra != got:
+                    k2 = "sanitizer-differs:%s:%s" % (key, fname)
+                    viol_seen[k2] = viol_seen.get(k2, 0) + 1
+                    if viol_seen[k2] == 1:
+                        ctx.violation(k2, "ASan/UBSan build behaves differently from the plain build", dict(case, asan=ra))
+        # reference (evaluation order + C semantics) vs the VM on the variable version
+        exp_real = exp_out
+        if exp_real == ("trap",):
+            t0 = tree
+            while t0[0] == "P":
+                t0 = t0[1]
+            wide = "long" if "long" in key else "int"
+            exp_real = ("val", wide, 0 if t0[1] == "mod" else (al.LONG_MIN if wide == "long" else al.INT_MIN))
+        if var != (exp_tags, exp_real):
+            ctx.correspondence_broken("vm-vs-trace-reference", case)
+        else:
+            counts["forms-reference-agrees"] += 1
+        # leg 3: the property's own oracle on the whole outcome
+        same = lit == var or (lit[1] == ("compile_error", "division by zero") and var[1] == ("fault", "division_by_zero"))
+        if same:
+            counts["leg3-agree"] += 1
+            continue
+        if lit[1][0] == "crash":
+            k2, what = "constred-crash:%s:%s" % (key, fname), "the compiler crashes (%s)" % lit[1][1]
+        elif lit[1] == ("compile_error", "division by zero"):
+            k2, what = ("div0-rejected-but-not-evaluated:%s:%s" % (key.split(":")[0], fname),
+                        "rejected as constant division by zero although the VM does not fault on that division")
+        else:
+            k2, what = ("effect-differs:%s:%s" % (key, fname),
+                        "the literal operand and a variable holding the same value give different outcomes "
+                        "(tags printed / result / exception)")
+        viol_seen[k2] = viol_seen.get(k2, 0) + 1
+        if viol_seen[k2] == 1:
+            ctx.violation(k2, "%s with operands in the forms %s: %s" % (key, fname, what), case)
+
+    # ---- enum declaration sets: index assignment (forward / backward / cross references) ----
+    edist = enumdecl_family(ctx, Tp, Ta, work, 400 if quick else 3000, counts, nontrivial, viol_seen)
+
     ctx.count(evaluations=counts["evaluations"], nontrivial=len(nontrivial))
     ctx.coverage["rule"] = (
         "expression trees over literal leaves: every operator x every admitted ordered pair of literal kinds "
         "{bool,int,long,float,double,enum item} x values (corner set + seeded random), unary operators, "
         "&&/||/?: with a division by zero in the branch not taken, random trees of depth <= 3, and assignments "
         "over the 16 numeric pairs (narrowing conversions folded on a literal); each tree is compiled with literal "
-        "leaves (dump of the folded constant + run) and with the leaves in variables (run); non-trivial = distinct "
-        "(root operator, operand kinds, fold result kind, run-time outcome kind)")
+        "leaves (dump of the folded constant + run) and with the leaves in variables (run); operand-form matrix: "
+        "every operator x type pair with ONE literal operand next to a variable / a printing call / a faulting "
+        "expression / the same operand repeated, and ?: with effectful parts, literal version vs variable version "
+        "compared on the whole outcome (tags printed + result + exception); enum declaration sets (plain, valued, "
+        "record-style enumerators; backward, forward and cross-enum references; every int operator; cyclic and "
+        "duplicate sets) read back three ways and against the extracted Arith/EnumIndex.decl_indices; non-trivial = "
+        "distinct (root operator, operand kinds, [operand forms,] fold result kind, run-time outcome kind) resp. "
+        "(initialiser root operator, how it refers)")
     ctx.notes["distribution"] = dict(dist)
+    table = collections.OrderedDict()
+    for (key, fname), n in sorted(formdist.items()):
+        op, _, pair = key.partition(":")
+        table.setdefault(op, collections.OrderedDict()).setdefault(pair, []).append("%s:%d" % (fname, n))
+    ctx.coverage["operator_x_typepair_x_operandform"] = {
+        op: {pair: " ".join(v) for pair, v in pairs.items()} for op, pairs in table.items()}
+    ctx.coverage["operand_form_cells"] = {
+        "distinct (operator, type pair, operand form) cells": len(formdist),
+        "cases per form": {f: sum(n for (k, ff), n in formdist.items() if ff == f)
+                           for f in sorted({ff for (k, ff) in formdist})}}
+    ctx.coverage["enumdecl_distribution"] = edist
     ctx.notes["counts"] = dict(counts)
     ctx.notes["violation_hits"] = viol_seen
     ctx.notes["excluded"] = ("C undefined behaviour: out-of-range float->int conversions, shift counts >= width "
